@@ -131,7 +131,9 @@ pub fn run() -> Report {
             }
             let world = World::laid_out(cn, &cb.blocks, 0, i);
             let start = if genesis(cn).is_none() { Some(1) } else { None };
-            let spec = RunSpec::new(c.coin, "csvdump").verify(true).range(start, None);
+            // verbosity is an option like any other: cases rotate through default, -v, -vv, -vvv
+            let mut spec = RunSpec::new(c.coin, "csvdump").verify(true).range(start, None);
+            spec.verbosity = (i % 4) as u8;
             let r = match wk.world_run(&world, &spec) {
                 Ok(r) => r,
                 Err(m) => {
